@@ -105,7 +105,7 @@ Theorem C18_partial_failure : forall (K A V : Type) (F : list (K * A) -> V) (ups
   (forall v n, r = AOk v n ->
      error_rule (length (ok_part ups)) (nfailed (ok_part ups)) (F (answers (ok_part ups))) = AOk v 0 /\
      n = nfailed ups /\ (n <> 0%nat <-> exists u, In u ups /\ failed u = true)).
-Proof. intros K A V F ups. exact (partial_view V F ups). Qed.
+Proof. exact partial_failure_general. Qed.
 Print Assumptions C18_partial_failure.
 
 (* /api/topics: 502 iff every upstream fails; else the view of the non-failing ones plus a
@@ -163,7 +163,7 @@ Theorem C18_tombstones : forall topics tombs,
   length (pair_pure 0 topics tombs) = length topics /\
   forall i t b, nth_error (pair_pure 0 topics tombs) i = Some (t, b) ->
                 nth_error topics i = Some t /\ b = nth i tombs false.
-Proof. intros topics tombs. split. apply pair_tombstones_ok. apply pair_pure_spec. Qed.
+Proof. exact tombstones_full. Qed.
 Print Assumptions C18_tombstones.
 
 (* the only non-200, non-502 outcome of the topic view: the selected topic's channel lists hold a
@@ -254,7 +254,7 @@ Theorem C18_source_shapes :
                     ("GetNSQDStats", ["topic == nil"; "channel == nil"; "c == nil"])]%string /\
    quantile_nil_guards = ["UnmarshalJSON: p == nil => continue"; "Add: e2 == nil => return"]%string /\
    producer_tombstone_exprs = ["i < len(r.Tombstoned) && r.Tombstoned[i]"; "Tombstoned: tombstoned"]%string).
-Proof. exact (conj topic_add_shape_current (conj channel_add_shape_current (conj error_rules_current nil_guards_current))). Qed.
+Proof. exact source_shapes_current. Qed.
 Print Assumptions C18_source_shapes.
 
 (* ------------------------------------------------------------------ non-vacuity *)
